@@ -9,13 +9,15 @@ KEYWORDS = ["_", "and", "annotation", "as", "attr", "class", "const", "enum", "f
             "in", "internal", "literal", "not", "null", "or", "out", "package", "pipeline", "private", "schema",
             "segment", "static", "sub", "this", "true", "union", "unknown", "val", "where", "yield"]
 
-FUNC_NAMES = ["f", "g", "my_func", "compute_all_things", "doIt", "get_x", "to_str", "helper_1", "run", "num_sides", "area_of"]
+FUNC_NAMES = ["f", "g", "my_func", "compute_all_things", "doIt", "get_x", "to_str", "helper_1", "run", "num_sides", "area_of",
+              "print_", "filter_", "_init_vals_"]
 PRIV_FUNC_NAMES = ["_hidden", "_helper_fn", "__very_private"]
-CLASS_NAMES = ["A", "B", "Shape", "my_class", "HTTPServer", "Data_Set", "Node", "Tree", "Base", "Impl"]
+CLASS_NAMES = ["A", "B", "Shape", "my_class", "HTTPServer", "Data_Set", "Node", "Tree", "Base", "Impl", "Type_", "object_"]
 PRIV_CLASS_NAMES = ["_Base", "_Mixin", "_Top", "_Impl"]
 PARAM_NAMES = ["x", "y", "value", "max_depth", "n_jobs", "alpha", "data_set", "flag", "name", "kw", "opt"]
 ATTR_NAMES = ["a", "b", "count", "my_attr", "value_2", "data"]
-MODULE_NAMES = ["mod_a", "mod_b", "core", "utils", "shapes", "io_mod", "models", "plots", "helpers", "base", "types_mod", "algo"]
+MODULE_NAMES = ["mod_a", "mod_b", "core", "utils", "shapes", "io_mod", "models", "plots", "helpers", "base", "types_mod", "algo",
+                "lambda_", "class_", "_both_ends_"]
 PRIV_MODULE_NAMES = ["_impl", "_private_mod"]
 
 
@@ -65,8 +67,10 @@ class ApiGen:
             return T.NamedType("Any", "typing.Any")
         if k == 7 or not classes:
             self.feat("foreign_class_type")
-            n = r.choice(["Path", "Tensor", "_Hidden", "DataFrame"])
-            return T.NamedType(n, r.choice(["pathlib", "torch", "pandas.core.frame", "numpy"]) + "." + n)
+            n, mod = r.choice([("Path", "pathlib"), ("Tensor", "torch"), ("_Hidden", "numpy"), ("DataFrame", "pandas.core.frame"),
+                               ("Parser", "email.parser"), ("HTMLParser", "html.parser"), ("Queue", "asyncio.queues"),
+                               ("JoinableQueue", "multiprocessing.queues"), ("Tensor", "numpy"), ("in", "torch.nn")])
+            return T.NamedType(n, mod + "." + n)
         c = r.choice(classes)
         self.feat("package_class_type")
         return T.NamedType(c[0], c[1])
@@ -202,10 +206,14 @@ class ApiGen:
             results = []
             self.feat("no_results")
         elif k in (2, 3, 4):
-            results = [A.Result(f"{fid}/result_1", "result_1", self.type_(classes))]
+            rn = r.choice(["result_1", "result_1", "result_1", "out", "val", "in_"])
+            results = [A.Result(f"{fid}/{rn}", rn, self.type_(classes))]
         else:
             n = r.choice([2, 3])
             names = [r.choice([f"result_{i + 1}", r.choice(["first_res", "val", "out_2"]) + str(i)]) for i in range(n)]
+            if r.random() < 0.3:
+                names[r.randrange(n)] = r.choice(["out", "val", "static", "schema", "sub", "out_"])
+                self.feat("keyword_result_name")
             results = [A.Result(f"{fid}/{nm}", nm, self.type_(classes)) for nm in names]
             self.feat("multi_results")
         if r.random() < 0.4:
@@ -213,7 +221,10 @@ class ApiGen:
                      for res in results[: r.choice([1, 2, 3])]]
         tvs = []
         if r.random() < 0.2:
-            tvs = [T.TypeVarType(n, r.choice([None, T.NamedType("int", "builtins.int")]))
+            tvs = [T.TypeVarType(n, r.choice([None, T.NamedType("int", "builtins.int"),
+                                               T.TupleType([T.NamedType("int", "builtins.int"), T.NamedType("str", "builtins.str")]),
+                                               T.SetType([T.NamedType("int", "builtins.int")]),
+                                               T.ListType([T.NamedType("int", "builtins.int"), T.NamedType("str", "builtins.str")])]))
                    for n in r.sample(["T", "K", "in", "my_var"], r.choice([1, 2]))]
             self.feat("function_type_vars")
         fdoc = D.FunctionDocstring(description=self.text(f"function {name}"), full_docstring="", examples=self.examples())
@@ -357,7 +368,8 @@ class ApiGen:
                     decls = [c.name for c in tm.classes] + [f.name for f in tm.global_functions]
                     if k <= 2 and decls:
                         d = r.choice(decls)
-                        alias = r.choice([None, None, None, "Alias" + d.strip("_").title().replace("_", ""), "_hid"])
+                        self._alias_n = getattr(self, "_alias_n", 0) + 1
+                        alias = r.choice([None, None, None, "Alias" + d.strip("_").title().replace("_", ""), f"_hid{self._alias_n}"])
                         form = r.choice([f"{tq}.{d}", f"{tm.name}.{d}", f".{tm.name}.{d}"]) if r.random() < 0.4 else f"{tq}.{d}"
                         qis.append(A.QualifiedImport(form, alias))
                         self.feat("reexport_name" + ("_alias" if alias else ""))
